@@ -28,10 +28,49 @@ const (
 	Freeze                // fail-stop: this and every later call fails with no effect
 	Misreport             // (ReceiveBlob) perform, but return a wrong size
 	Gate                  // block until Plan.Release(index) / ReleaseAll
+	// Truncate is a failure that arrives after the call took effect in part:
+	//   EnumerateBlobs: half of the entries are delivered, the channel is closed, then the error is returned;
+	//   KV.Find: the iterator yields half of the rows, then stops and Close reports the error;
+	//   Fetch / SubFetch: the call succeeds, the body fails after half of its bytes;
+	//   StatBlobs: half of the refs are reported, then the error is returned;
+	//   RemoveBlobs: half of the refs are removed, then the error is returned;
+	//   every other call: as Error.
+	Truncate
 )
 
 func (m Mode) String() string {
-	return [...]string{"pass", "error", "error-after-effect", "freeze", "misreport", "gate"}[m]
+	names := [...]string{"pass", "error", "error-after-effect", "freeze", "misreport", "gate", "truncate"}
+	if m < 0 || int(m) >= len(names) {
+		return fmt.Sprintf("mode(%d)", int(m))
+	}
+	return names[m]
+}
+
+// failingBody serves data and then fails with err instead of io.EOF.
+type failingBody struct {
+	data []byte
+	err  error
+}
+
+func (f *failingBody) Read(p []byte) (int, error) {
+	if len(f.data) == 0 {
+		return 0, f.err
+	}
+	n := copy(p, f.data)
+	f.data = f.data[n:]
+	return n, nil
+}
+
+func (f *failingBody) Close() error { return nil }
+
+// halfBody replaces rc by a body that delivers the first half of rc's bytes and then fails.
+func halfBody(rc io.ReadCloser) io.ReadCloser {
+	b, err := io.ReadAll(rc)
+	rc.Close()
+	if err != nil {
+		return &failingBody{err: err}
+	}
+	return &failingBody{data: b[:len(b)/2], err: ErrInjected}
 }
 
 // ErrInjected is the error injected calls return.
@@ -276,6 +315,9 @@ func (s *SubFetchStorage) SubFetch(ctx context.Context, ref blob.Ref, offset, le
 		return nil, ErrFrozen
 	}
 	rc, err := s.Inner.(blob.SubFetcher).SubFetch(ctx, ref, offset, length)
+	if m == Truncate && err == nil {
+		return halfBody(rc), nil
+	}
 	if m == ErrorAfterEffect {
 		if rc != nil {
 			rc.Close()
@@ -295,6 +337,9 @@ func (s *Storage) Fetch(ctx context.Context, ref blob.Ref) (io.ReadCloser, uint3
 		return nil, 0, ErrFrozen
 	}
 	rc, size, err := s.Inner.Fetch(ctx, ref)
+	if m == Truncate && err == nil {
+		return halfBody(rc), size, nil
+	}
 	if m == ErrorAfterEffect {
 		if rc != nil {
 			rc.Close()
@@ -307,7 +352,7 @@ func (s *Storage) Fetch(ctx context.Context, ref blob.Ref) (io.ReadCloser, uint3
 func (s *Storage) ReceiveBlob(ctx context.Context, br blob.Ref, src io.Reader) (blob.SizedRef, error) {
 	m, c := s.P.enter(s.Name, "ReceiveBlob", br.String(), true)
 	switch m {
-	case Error:
+	case Error, Truncate:
 		io.Copy(io.Discard, src)
 		return blob.SizedRef{}, ErrInjected
 	case Freeze:
@@ -341,6 +386,11 @@ func (s *Storage) StatBlobs(ctx context.Context, blobs []blob.Ref, fn func(blob.
 		return ErrInjected
 	case Freeze:
 		return ErrFrozen
+	case Truncate:
+		if err := s.Inner.StatBlobs(ctx, blobs[:len(blobs)/2], fn); err != nil {
+			return err
+		}
+		return ErrInjected
 	}
 	err := s.Inner.StatBlobs(ctx, blobs, fn)
 	if m == ErrorAfterEffect {
@@ -358,6 +408,31 @@ func (s *Storage) EnumerateBlobs(ctx context.Context, dest chan<- blob.SizedRef,
 	case Freeze:
 		close(dest)
 		return ErrFrozen
+	}
+	if m == Truncate {
+		// a scan that fails half way: part of the entries, close, then the error
+		mid := make(chan blob.SizedRef)
+		errc := make(chan error, 1)
+		go func() { errc <- s.Inner.EnumerateBlobs(ctx, mid, after, limit) }()
+		var all []blob.SizedRef
+		for sb := range mid {
+			all = append(all, sb)
+		}
+		if err := <-errc; err != nil {
+			close(dest)
+			return err
+		}
+		for _, sb := range all[:len(all)/2] {
+			select {
+			case dest <- sb:
+			case <-ctx.Done():
+				close(dest)
+				return ctx.Err()
+			}
+		}
+		close(dest)
+		time.Sleep(2 * time.Millisecond)
+		return ErrInjected
 	}
 	if m == ErrorAfterEffect {
 		// deliver everything, close the channel, then report an error late
@@ -382,6 +457,11 @@ func (s *Storage) RemoveBlobs(ctx context.Context, blobs []blob.Ref) error {
 		return ErrInjected
 	case Freeze:
 		return ErrFrozen
+	case Truncate:
+		if err := s.Inner.RemoveBlobs(ctx, blobs[:len(blobs)/2]); err != nil {
+			return err
+		}
+		return ErrInjected
 	}
 	err := s.Inner.RemoveBlobs(ctx, blobs)
 	if m == ErrorAfterEffect {
@@ -417,7 +497,7 @@ func WrapKV(name string, inner sorted.KeyValue, p *Plan) *KV {
 func (k *KV) Get(key string) (string, error) {
 	m, _ := k.P.enter(k.Name, "Get", key, false)
 	switch m {
-	case Error, ErrorAfterEffect:
+	case Error, ErrorAfterEffect, Truncate:
 		return "", ErrInjected
 	case Freeze:
 		return "", ErrFrozen
@@ -428,7 +508,7 @@ func (k *KV) Get(key string) (string, error) {
 func (k *KV) Set(key, value string) error {
 	m, c := k.P.enter(k.Name, "Set", key, true)
 	switch m {
-	case Error:
+	case Error, Truncate:
 		return ErrInjected
 	case Freeze:
 		return ErrFrozen
@@ -446,7 +526,7 @@ func (k *KV) Set(key, value string) error {
 func (k *KV) Delete(key string) error {
 	m, c := k.P.enter(k.Name, "Delete", key, true)
 	switch m {
-	case Error:
+	case Error, Truncate:
 		return ErrInjected
 	case Freeze:
 		return ErrFrozen
@@ -470,7 +550,7 @@ func (k *KV) CommitBatch(b sorted.BatchMutation) error {
 	}
 	m, c := k.P.enter(k.Name, "CommitBatch", arg, true)
 	switch m {
-	case Error:
+	case Error, Truncate:
 		return ErrInjected
 	case Freeze:
 		return ErrFrozen
@@ -494,6 +574,25 @@ func (e errIter) Value() string      { return "" }
 func (e errIter) ValueBytes() []byte { return nil }
 func (e errIter) Close() error       { return e.err }
 
+// halfIter yields the rows it was given and then fails at Close.
+type halfIter struct {
+	rows [][2]string
+	i    int
+}
+
+func (h *halfIter) Next() bool {
+	if h.i < len(h.rows) {
+		h.i++
+		return true
+	}
+	return false
+}
+func (h *halfIter) Key() string        { return h.rows[h.i-1][0] }
+func (h *halfIter) KeyBytes() []byte   { return []byte(h.rows[h.i-1][0]) }
+func (h *halfIter) Value() string      { return h.rows[h.i-1][1] }
+func (h *halfIter) ValueBytes() []byte { return []byte(h.rows[h.i-1][1]) }
+func (h *halfIter) Close() error       { return ErrInjected }
+
 func (k *KV) Find(start, end string) sorted.Iterator {
 	m, _ := k.P.enter(k.Name, "Find", start, false)
 	switch m {
@@ -501,6 +600,17 @@ func (k *KV) Find(start, end string) sorted.Iterator {
 		return errIter{ErrInjected}
 	case Freeze:
 		return errIter{ErrFrozen}
+	case Truncate:
+		// a scan that fails half way (at most the first 4096 rows are looked at)
+		it := k.Inner.Find(start, end)
+		var rows [][2]string
+		for len(rows) < 4096 && it.Next() {
+			rows = append(rows, [2]string{it.Key(), it.Value()})
+		}
+		if err := it.Close(); err != nil {
+			return errIter{err}
+		}
+		return &halfIter{rows: rows[:len(rows)/2]}
 	}
 	return k.Inner.Find(start, end)
 }
@@ -512,7 +622,7 @@ func (k *KV) Wipe() error {
 	if w, ok := k.Inner.(sorted.Wiper); ok {
 		m, _ := k.P.enter(k.Name, "Wipe", "", true)
 		switch m {
-		case Error:
+		case Error, Truncate:
 			return ErrInjected
 		case Freeze:
 			return ErrFrozen
